@@ -172,10 +172,6 @@ for fn, src in (('is_822_local', 'src/is_822_local.c'), ('is_5321_local', 'src/i
 add(Job('is_6531_local+rfc20', 'harness/is_6531_local.c', enforce='is_6531_local', loops=True, timeout=2400, reach=3, defines=['-DRFC6531_FOLLOW_RFC20'],
         extra_sources=['src/utf8_decode.c'], expect=['postcondition', 'loop_invariant_base', 'loop_invariant_step', 'loop_decreases', 'assigns'],
         functions=['is_6531_local (RFC6531_FOLLOW_RFC20 build)'], files=['src/is_6531_local.c', 'src/utf8_decode.c'], assumptions=[A1, A9]))
-add(Job('is_6531_local+rfc5322', 'harness/is_6531_local_rfc5322.c', enforce='is_6531_local', loops=True, timeout=3600, reach=3, defines=['-DRFC6531_FOLLOW_RFC5322'],
-        extra_sources=['src/utf8_decode.c'], expect=['postcondition', 'loop_invariant_base', 'loop_invariant_step', 'loop_decreases', 'assigns'],
-        functions=['is_6531_local (RFC6531_FOLLOW_RFC5322 build)'], files=['src/is_6531_local.c', 'src/utf8_decode.c'], assumptions=[A1, A9],
-        note='covers pure-ASCII local parts only (ghost flag: no character > 127 read so far)'))
 add(Job('is_ascii_domain+underscore', 'harness/is_ascii_domain.c', enforce='is_ascii_domain', loops=True, timeout=900, reach=3, defines=['-DLABELS_ALLOW_UNDERSCORE'],
         expect=['postcondition', 'loop_invariant_base', 'loop_invariant_step', 'loop_decreases', 'assigns'],
         functions=['is_ascii_domain (LABELS_ALLOW_UNDERSCORE build)'], files=['src/is_ascii_domain.c'], assumptions=[A1, A9]))
@@ -215,6 +211,8 @@ add(Job('safe_is_6531_local', 'harness/is_6531_local.c', enforce='is_6531_local'
 SAFE_JOBS.append('safe_is_6531_local')
 add(Job('errors_table', 'harness/errors_table.c', no_dfcc=True, unwind=52, safety_checks=False, extra_cbmc=['--no-standard-checks'], defines=['-DHAVE_LIBIDN2'], timeout=300, reach=0,
         expect=['assertion'], functions=['errors[] (data)'], files=['src/eav.c'], assumptions=[A_TABLE], note='keyword per code: the message is about its own code'))
+add(Job('lemma_ipv6', 'harness/lemma_ipv6.c', no_dfcc=True, unwind=6, timeout=300, reach=1, expect=['assertion'],
+        functions=['IPv6 spec automaton (counting lemmas)'], files=[], note='loop-free inductive invariant over a symbolic (state, character) pair'))
 add(Job('lemma_rank', 'harness/lemma_rank.c', loops=True, defines=['-DPART_MONO'], timeout=300, reach=1,
         expect=['loop_invariant_base', 'loop_invariant_step', 'loop_decreases', 'assertion'], functions=['dot-rank function (lemma, induction by loop contract)'], files=[],
         note='rank is defined by the step axiom, which is the only assumption inside the loop'))
